@@ -2,7 +2,7 @@
 from common import SYNC_RW, RAFT_ENV  # noqa: F401
 
 CHECK = {'level': 'model_checking',
- 'rule': 'B: BFS (depth 4/5) over 15 barrier operations on an active and a standby barrier sharing one store (root and '
+ 'rule': 'B: BFS (depth 4/5) over 25 barrier operations (since round 4 also a key rotation in its two halves - Rotate, then CreateUpgrade of the oldest / newest rotation still lacking it - and two overlapped rotations as one composite step, because the seal manager rotates under a read lock only; 15 in the original alphabet) on an active and a standby barrier sharing one store (root and '
          'namespace barrier; transactional and plain store), deduplicated by (sealed, term, #root rotations, key set, '
          'standby term/root); in every state: while sealed every operation fails with the sealed error and no key '
          'material is held, wrong/partial/previous keys leave it sealed, every entry reads back, new writes carry the '
